@@ -14,6 +14,7 @@ struct DocOpts {
     bool allow_chain = true;
     bool force_object_root = false;
     bool depth_sufficient = false;  // choose max_depth so that the generated tree always fits
+    unsigned rare_deep = 0;         // >0: the chain classes beyond 256 levels are taken only once in 2^rare_deep (harnesses whose oracle is super-linear in the depth)
 };
 
 struct DocCase {
@@ -79,6 +80,7 @@ inline DocCase decode_doc(Src &s, const DocOpts &o) {
         // nesting near the limits: levels around depth, 255, 256
         unsigned sel = s.u8() % 8, levels;
         unsigned cstyle = s.u8() % 8;
+        if (sel >= 6 && o.rare_deep && (s.u16() & ((1u << o.rare_deep) - 1)) != 0) sel = 2;
         switch (sel) {
         case 6: levels = 258 + s.u16() % 400; if (cstyle % 4 == 0) cstyle++; break;     // beyond 256 levels (mixed kinds only: the pure chains cannot be valid there)
         case 7: levels = 255 * (1 + s.u8() % 10) + s.u8() % 12; cstyle |= 3; break;        // blocks of 255 arrays under up to 10 objects: up to ~2560 levels
